@@ -32,15 +32,16 @@ type Job struct {
 }
 
 type JobOptions struct {
-	LoopBudget    int   `json:"loop_budget"`
-	AllocLimit    int64 `json:"alloc_limit"`
-	TimeoutMs     int   `json:"timeout_ms"`
-	MaxPaths      int   `json:"max_paths"`
-	NoRewrite     bool  `json:"no_rewrite"`
-	CheckRewrites bool  `json:"check_rewrites"`
-	EnumCap       int   `json:"enum_cap"`
-	InstrBudget   int64 `json:"instr_budget"`
-	Witnesses     int   `json:"witnesses"`
+	LoopBudget    int     `json:"loop_budget"`
+	AllocLimit    int64   `json:"alloc_limit"`
+	TimeoutMs     int     `json:"timeout_ms"`
+	MaxPaths      int     `json:"max_paths"`
+	NoRewrite     bool    `json:"no_rewrite"`
+	CheckRewrites bool    `json:"check_rewrites"`
+	EnumCap       int     `json:"enum_cap"`
+	InstrBudget   int64   `json:"instr_budget"`
+	Witnesses     int     `json:"witnesses"`
+	FuncBudgetS   float64 `json:"func_budget_s"`
 }
 
 type FuncResult struct {
@@ -112,7 +113,7 @@ func RunJob(j *Job) *JobResult {
 		}
 		e, err := interp.New(l.Prog, interp.Options{LoopBudget: j.Opt.LoopBudget, AllocLimit: j.Opt.AllocLimit,
 			TimeoutMs: j.Opt.TimeoutMs, MaxPaths: j.Opt.MaxPaths, CheckRewrites: j.Opt.CheckRewrites,
-			EnumCap: j.Opt.EnumCap, InstrBudget: j.Opt.InstrBudget})
+			EnumCap: j.Opt.EnumCap, InstrBudget: j.Opt.InstrBudget, FuncBudgetS: j.Opt.FuncBudgetS})
 		if err != nil {
 			return err
 		}
@@ -132,7 +133,16 @@ func RunJob(j *Job) *JobResult {
 		res.Funcs = append(res.Funcs, fr)
 		fn, err := l.FindFunc(name)
 		if err != nil {
-			fr.Error = err.Error()
+			pk := name[:strings.LastIndex(name, ".")]
+			if es, ok := l.Errors[pk]; ok {
+				msg := strings.Join(es, "; ")
+				if len(msg) > 300 {
+					msg = msg[:300]
+				}
+				fr.Error = "not-analysable: does not compile: " + msg
+			} else {
+				fr.Error = err.Error()
+			}
 			continue
 		}
 		t1 := time.Now()
